@@ -322,6 +322,66 @@ func safeAddr(f func() uintptr) (a uintptr, ok bool) {
 	return f(), true
 }
 
+// CopyF / AppendF / RangeF observe element-level accesses of the builtins copy and append and of
+// range loops over slices (inserted by the instrumenter in front of the statement). An append
+// that fits the capacity writes in place into a backing array that other slices may share.
+func CopyF(f func() (interface{}, interface{}), where string) {
+	e := cur
+	if e == nil || !e.trackRaces || e.running == nil {
+		return
+	}
+	defer func() { recover() }()
+	d, s := f()
+	dv, sv := reflect.ValueOf(d), reflect.ValueOf(s)
+	if dv.Kind() != reflect.Slice || sv.Kind() != reflect.Slice {
+		return
+	}
+	n := dv.Len()
+	if sv.Len() < n {
+		n = sv.Len()
+	}
+	if n > 64 {
+		n = 64
+	}
+	for i := 0; i < n; i++ {
+		access(sv.Index(i).UnsafeAddr(), "element of "+sv.Type().String(), where, false)
+		access(dv.Index(i).UnsafeAddr(), "element of "+dv.Type().String(), where, true)
+	}
+}
+
+func AppendF(f func() (interface{}, int), where string) {
+	e := cur
+	if e == nil || !e.trackRaces || e.running == nil {
+		return
+	}
+	defer func() { recover() }()
+	x, n := f()
+	v := reflect.ValueOf(x)
+	if v.Kind() != reflect.Slice || v.IsNil() {
+		return
+	}
+	l, c := v.Len(), v.Cap()
+	full := v.Slice(0, c)
+	for k := 0; k < n && l+k < c && k < 64; k++ {
+		access(full.Index(l+k).UnsafeAddr(), "element of "+v.Type().String()+" (append in place)", where, true)
+	}
+}
+
+func RangeF(f func() interface{}, where string) {
+	e := cur
+	if e == nil || !e.trackRaces || e.running == nil {
+		return
+	}
+	defer func() { recover() }()
+	v := reflect.ValueOf(f())
+	if v.Kind() != reflect.Slice {
+		return
+	}
+	for i := 0; i < v.Len() && i < 64; i++ {
+		access(v.Index(i).UnsafeAddr(), "element of "+v.Type().String(), where, false)
+	}
+}
+
 // Read / Write are inserted by the instrumenter around accesses to struct fields of the package
 // and to package-level variables.
 func Read(addr uintptr, name, where string)  { access(addr, name, where, false) }
